@@ -1,6 +1,10 @@
 package pool
 
-import zz "github.com/krotik/ecal/zzverif"
+import (
+	"sync"
+
+	zz "github.com/krotik/ecal/zzverif"
+)
 
 type c09Task struct{ runs int }
 
@@ -74,4 +78,40 @@ func VerifC09Resize() {
 		tp.WaitAll()
 		zz.Assert(t.runs == 1, "C09.task-survives-resize")
 	}
+}
+
+// c09SyncTask: a task that synchronises before it takes effect (a pre-emption point between being taken from the queue
+// and having run, as any real task has).
+type c09SyncTask struct {
+	mu   sync.Mutex
+	runs int
+}
+
+func (t *c09SyncTask) Run(tid uint64) error {
+	t.mu.Lock()
+	t.runs++
+	t.mu.Unlock()
+	return nil
+}
+func (t *c09SyncTask) HandleError(e error) {}
+
+// VerifC09Rounds: R rounds of "add a task, WaitAll": each WaitAll returns only after the task accepted before it has
+// run - also when the workers were woken by the broadcasts of an earlier WaitAll / SetWorkerCount and race the next
+// submission - and State() never lists more idle workers than there are workers.
+func VerifC09Rounds() {
+	w := zz.Param("W", 1)
+	r := zz.Param("R", 2)
+	tp := NewThreadPool()
+	zz.Schedule(zz.Param("P", 2))
+	tp.SetWorkerCount(w, zz.Param("WAITSET", 0) == 1)
+	for i := 0; i < r; i++ {
+		t := &c09SyncTask{}
+		tp.AddTask(t)
+		tp.WaitAll()
+		t.mu.Lock()
+		n := t.runs
+		t.mu.Unlock()
+		zz.Assert(n == 1, "C09.waitall-returns-after-all-tasks-ran")
+	}
+	zz.Reach("rounds-done")
 }
